@@ -12,6 +12,14 @@
 (*                      framing) no further attempt of r is observed (not judged when the server itself was late).      *)
 (*   NoReuse            after STaint{c} (failure, close signal, surplus bytes, close-delimited body) no request         *)
 (*                      arrives on c (bytes that were already pending at the taint, flag pre, were sent before it).    *)
+(*   OwnResponse        a call that returns a response returns the response to ITS OWN request (Ret.rt = the X-Resp tag   *)
+(*                      the scripted server put into the response = r).  This is the weaker reading for surplus that      *)
+(*                      arrives where the client cannot see it while it frames the response: in a segment of its own     *)
+(*                      after the complete response (SLateSurplus) or while the connection sits idle in the cache (SIdle, *)
+(*                      a complete foreign response tagged 99 or junk).  Such a connection may be reused; the bytes must   *)
+(*                      never be taken as (part of) the response to the next request: that request fails or is answered   *)
+(*                      by its own response only.  The strong reading (NoReuse, STaint why = surplus) is kept for surplus  *)
+(*                      in the SAME write as the last byte of the response, whatever the segmentation before it.           *)
 (*   TimeBound          every call returns within (budget+1)*(connectTimeout + 2*requestTimeout) + back-off + slack.   *)
 (* Choices where the statement is ambiguous (weaker reading): a method token that RFC 9110 does not register (e.g.     *)
 (* lower-case "get") may be treated as either class: (wire <= 1) \/ (attempts <= budget + 1).                          *)
@@ -35,7 +43,7 @@ Upd(f, k, v) == (k :> v) @@ f
 EvBegin == /\ IsEv("Begin") /\ cfg' = [ct |-> Ev.ct, rt |-> Ev.rt] /\ rq' = <<>> /\ cn' = <<>> /\ late' = FALSE
 EvReset == /\ IsEv("Reset") /\ cfg' = NoCfg /\ rq' = <<>> /\ cn' = <<>> /\ late' = FALSE
 EvCall == /\ IsEv("Call")
-          /\ rq' = Upd(rq, Ev.r, [m |-> Ev.m, b |-> Ev.b, att |-> 0, wire |-> 0, framed |-> FALSE, after |-> 0, ms |-> 0])
+          /\ rq' = Upd(rq, Ev.r, [m |-> Ev.m, b |-> Ev.b, att |-> 0, wire |-> 0, framed |-> FALSE, after |-> 0, ms |-> 0, own |-> TRUE])
           /\ UNCHANGED <<cfg, cn, late>>
 \* one more observed attempt of request r
 Bump(r, isWire) == IF Known(r)
@@ -61,10 +69,10 @@ EvSTaint == /\ IsEv("STaint")
             /\ UNCHANGED <<cfg, late>>
 EvSLate == IsEv("SLate") /\ late' = TRUE /\ UNCHANGED <<cfg, rq, cn>>
 EvRet == /\ IsEv("Ret")
-         /\ rq' = IF Known(Ev.r) THEN [rq EXCEPT ![Ev.r] = [@ EXCEPT !.ms = Ev.ms]] ELSE rq
+         /\ rq' = IF Known(Ev.r) THEN [rq EXCEPT ![Ev.r] = [@ EXCEPT !.ms = Ev.ms, !.own = (Ev.res # "ok" \/ Fld("rt", Ev.r) = Ev.r)]] ELSE rq
          /\ UNCHANGED <<cfg, cn, late>>
 \* Crashed / HarnessTimeout / HarnessError are handled by the check itself (violation resp. infrastructure error)
-EvOther == /\ (IsEv("SOverlap") \/ IsEv("End") \/ IsEv("Crashed") \/ IsEv("HarnessTimeout") \/ IsEv("HarnessError")) /\ UNCHANGED <<cfg, rq, cn, late>>
+EvOther == /\ (IsEv("SOverlap") \/ IsEv("SLateSurplus") \/ IsEv("SIdle") \/ IsEv("End") \/ IsEv("Crashed") \/ IsEv("HarnessTimeout") \/ IsEv("HarnessError")) /\ UNCHANGED <<cfg, rq, cn, late>>
 
 Next == EvBegin \/ EvReset \/ EvCall \/ EvCConn \/ EvSReq \/ EvSTaint \/ EvSLate \/ EvRet \/ EvOther
 Spec == Init /\ [][Next]_vars
@@ -81,5 +89,6 @@ AtMostOnce == \A r \in DOMAIN rq :
 AttemptBound == \A r \in DOMAIN rq : Idem(rq[r].m) => rq[r].att <= rq[r].b + 1
 FramingNotRetried == late \/ \A r \in DOMAIN rq : rq[r].after = 0
 NoReuse == \A c \in DOMAIN cn : ~cn[c].reused
+OwnResponse == \A r \in DOMAIN rq : rq[r].own
 TimeBound == \A r \in DOMAIN rq : rq[r].ms <= Bound(r)
 ===============================================================================
